@@ -1,3 +1,6 @@
+CONSTANTS
+  MaxDepth = @MAXDEPTH@
+  MaxCalls = @MAXCALLS@
 INIT SInit
 NEXT MCNext
 INVARIANTS KindsOK ClosedOnlyFor ResolveInnermost
